@@ -45,7 +45,7 @@ def holders(rng, n):
 
 def generate(tier, seed):
     cases = [{"kind": "build-product"}]
-    nb, nm, nc = (40, 25, 10) if tier == "quick" else (2000, 1500, 340)
+    nb, nm, nc = (40, 25, 10) if tier == "quick" else (8000, 6000, 1200)
     for k in range(nb):
         cases.append({"kind": "build", "k": k, "n": 500})
     for k in range(nm):
